@@ -238,7 +238,15 @@ public:
         std::size_t ofs = extra_offset(sz);
         void *ptr = Alloc::alloc(ofs+sizeof(T));
         void *inv = static_cast<std::uint8_t *>(ptr)+ofs;
-        inventory = new(inv) T(_factory());
+        try {
+            inventory = new(inv) T(_factory());
+        } catch (...) {
+            //no frame will be created and no extra object exists - return
+            //the block to the base storage (not through own dealloc(), which
+            //destroys the extra object)
+            Alloc::dealloc(ptr,ofs+sizeof(T));
+            throw;
+        }
        return ptr;
     }
 
